@@ -168,17 +168,18 @@ def run_harnesses(scratch, obs, jobs, mem_kb, timeout_s, tag, cbmc_args=None, lo
         except Exception:
             data = None
     stub_lines = {}
-    cur = None
+    cur = {}   # per worker thread: the harness whose lines are being printed
     for line in log.splitlines():
-        line = re.sub(r'^Thread \d+: ', '', line)
-        m = re.match(r'Checking harness (\S+?)\.\.\.', line)
+        tm = re.match(r'^Thread (\d+): (.*)$', line)
+        tid, body = (tm.group(1), tm.group(2)) if tm else ('-', line)
+        m = re.match(r'Checking harness (\S+?)\.\.\.', body)
         if m:
-            cur = m.group(1)
-            stub_lines.setdefault(cur, [])
+            cur[tid] = m.group(1)
+            stub_lines.setdefault(m.group(1), [])
             continue
-        m = re.match(r'\s*- Stub: (.*)', line)
-        if m and cur:
-            stub_lines[cur].append(' '.join(m.group(1).split()))
+        m = re.match(r'\s*- Stub: (.*)', body)
+        if m and tid in cur:
+            stub_lines[cur[tid]].append(' '.join(m.group(1).split()))
     if data is not None:
         stats = {c['harness_id']: (c.get('cbmc_stats') or {}) for c in data.get('cbmc', [])}
         pdet = {c['harness_id']: (c.get('property_details') or {}) for c in data.get('property_details', [])}
